@@ -6,10 +6,11 @@ Local Open Scope N_scope.
 
 Definition cw_digits (l : list N) : Prop := Forall (fun d => d < 10) l.
 
-(* numbers: decimal digits, an integer digit, at most six fractional digits; keys that the lexer accepts *)
+(* numbers: decimal digits and an integer digit (NO bound on the number of fractional digits any more: the writer
+   emits the digits it is given); keys that the lexer accepts *)
 Fixpoint cw_six (v : cw_value) : Prop :=
   match v with
-  | CwNum _ ip fp => ip <> [] /\ cw_digits ip /\ cw_digits fp /\ (length fp <= 6)%nat
+  | CwNum _ ip fp => ip <> [] /\ cw_digits ip /\ cw_digits fp
   | CwArr l => cw_six_items l
   | CwDict d => cw_six_entries d
   | _ => True
@@ -33,10 +34,10 @@ Proof.
     + rewrite (IH r) by (cbn in H; lia). reflexivity.
 Qed.
 
-Lemma cw_round6_exact ip fp : (length fp <= 6)%nat -> cw_round6 ip fp = (ip, cw_take6 fp 6).
+Lemma cw_strip0_pad6 fp : cw_strip0 (cw_pad6 fp) = cw_strip0 fp.
 Proof.
-  intros H. unfold cw_round6. replace (skipn 6 fp) with (@nil N); [reflexivity|].
-  symmetry. apply skipn_all2. exact H.
+  unfold cw_pad6. destruct (Nat.leb (length fp) 6) eqn:E; [|reflexivity].
+  apply cw_strip0_take. apply Nat.leb_le. exact E.
 Qed.
 
 Lemma cw_leqb_refl l : cw_leqb l l = true.
@@ -50,13 +51,16 @@ Proof.
   - inversion H; subst. constructor; [assumption|apply IH; assumption].
 Qed.
 
+Lemma cw_digits_pad6 fp : cw_digits fp -> cw_digits (cw_pad6 fp).
+Proof. intros H. unfold cw_pad6. destruct (Nat.leb (length fp) 6); [apply cw_digits_take|]; assumption. Qed.
+
 Lemma cw_num_roundtrip neg ip fp :
-  cw_digits ip -> cw_digits fp -> (length fp <= 6)%nat ->
-  let '(i, f) := cw_round6 ip fp in cw_num_eqb neg ip fp neg (cw_norm_digits i) (cw_norm_digits f) = true.
+  cw_digits ip -> cw_digits fp ->
+  let '(i, f) := cw_num_digits ip fp in cw_num_eqb neg ip fp neg (cw_norm_digits i) (cw_norm_digits f) = true.
 Proof.
-  intros Hi Hf Hl. rewrite cw_round6_exact by assumption.
-  rewrite (cw_norm_id ip Hi), (cw_norm_id _ (cw_digits_take fp 6 Hf)).
-  unfold cw_num_eqb. rewrite cw_strip0_take by assumption. rewrite !cw_leqb_refl.
+  intros Hi Hf. unfold cw_num_digits, cw_num_digits_m. rewrite cw_number_roundtrip_true.
+  rewrite (cw_norm_id ip Hi), (cw_norm_id _ (cw_digits_pad6 fp Hf)).
+  unfold cw_num_eqb. rewrite cw_strip0_pad6. rewrite !cw_leqb_refl.
   destruct (cw_lstrip0 ip), (cw_strip0 fp); cbn; try reflexivity; destruct neg; reflexivity.
 Qed.
 
@@ -68,8 +72,8 @@ Proof.
   apply cw_value_mutind.
   - intros _. eexists. split; reflexivity.
   - intros b _. eexists. split; [reflexivity|]. destruct b; reflexivity.
-  - intros neg ip fp (Hne & Hi & Hf & Hl). cbn [cw_expect_value].
-    pose proof (cw_num_roundtrip neg ip fp Hi Hf Hl) as H. destruct (cw_round6 ip fp) as [i f].
+  - intros neg ip fp (Hne & Hi & Hf). cbn [cw_expect_value].
+    pose proof (cw_num_roundtrip neg ip fp Hi Hf) as H. destruct (cw_num_digits ip fp) as [i f].
     eexists. split; [reflexivity|]. exact H.
   - intros s _. eexists. split; [reflexivity|]. cbn. apply cw_beq_refl'.
   - intros l IH H. destruct (IH H) as (l' & E & Q). cbn [cw_expect_value]. rewrite E.
